@@ -462,6 +462,9 @@ func rewriteSelect(s *ast.SelectStmt, walkBlock func([]ast.Stmt) []ast.Stmt, wal
 	hd := "false"
 	if hasDefault {
 		hd = "true"
+	} else {
+		// keep the statement terminating when every case returns (a select without default is)
+		sw.Body.List = append(sw.Body.List, &ast.CaseClause{List: nil, Body: []ast.Stmt{&ast.ExprStmt{X: call(ast.NewIdent("panic"), &ast.BasicLit{Kind: token.STRING, Value: strconv.Quote("vchan: select returned no case")})}}})
 	}
 	args := append([]ast.Expr{ast.NewIdent(hd)}, caseVars...)
 	sw.Tag = call(sel("zzvchan", "Select"), args...)
